@@ -130,8 +130,10 @@ def body_reject(rep, case):
                         {"frames": [f.hex() for f in frames]})
     if status == "timeout":
         raise Violation(f"C02/rejected-arguments-hang/{case['why']}", case, "an exception", "timeout")
-    if len(frames) != 1:
-        raise Violation(f"C02/command-frame-written-for-rejected-arguments/{case['why']}", case, "login frame only",
+    # the call may refuse before or after logging in: what must not appear is anything but a login frame
+    login = ops.login_kind(kind)
+    if len(frames) > 1 or any(len(f) < 44 or wire.classify(f) != login for f in frames):
+        raise Violation(f"C02/command-frame-written-for-rejected-arguments/{case['why']}", case, "at most the login frame",
                         [f.hex() for f in frames])
 
 
